@@ -17,6 +17,9 @@ import (
 	"encoding/json"
 	"fmt"
 	"math/big"
+	"runtime"
+	"sync"
+	"sync/atomic"
 
 	"github.com/shogo82148/goat/x25519"
 	"github.com/shogo82148/goat/x448"
@@ -110,12 +113,78 @@ func refX448(k, u []byte) ([]byte, bool) {
 // ---------------------------------------------------------------------------------------------
 
 type c14Case struct {
-	Kind   string `json:"kind"` // x448 | newkey | genkey | dh | x25519 | x25519key
+	Kind   string `json:"kind"` // x448 | newkey | genkey | dh | x25519 | x25519key | conc448 | conc25519
 	Scalar []byte `json:"scalar"`
 	Point  []byte `json:"point"`
 	Model  bool   `json:"model"` // also run the (slow, ≈1.4 s) Lean model of the Go code
 	Spec   bool   `json:"spec"`  // also run the Lean RFC spec (≈10 ms)
 	Note   string `json:"note,omitempty"`
+	// argument shape (memory layout of the two slices handed to goat); the expected value is always the
+	// RFC function of the argument VALUES at call time (copies taken before the call)
+	Shape string `json:"shape,omitempty"` // "" distinct buffers | "same" one slice for both | "overlap" two windows of one buffer
+	Buf   []byte `json:"buf,omitempty"`   // overlap: the shared buffer, len = n + |Off|
+	Off   int    `json:"off,omitempty"`   // overlap: &point[0] - &scalar[0], in -(n-1)..(n-1)
+	// concurrent stream (kinds conc448 / conc25519)
+	Shared string `json:"shared,omitempty"` // which argument is the one slice shared by all goroutines: "scalar" | "point"
+	Seed   uint64 `json:"seed,omitempty"`   // derives the goroutines' distinct other arguments
+	N      int    `json:"n,omitempty"`      // goroutines
+	M      int    `json:"m,omitempty"`      // calls per goroutine
+}
+
+var c14Sentinel = []byte{0xa5, 0x5a, 0xc3, 0x3c, 0x96, 0x69, 0xf0, 0x0f, 0xa5, 0x5a, 0xc3, 0x3c, 0x96, 0x69, 0xf0, 0x0f}
+
+// c14Materialize lays the arguments out in memory as cs.Shape says.  Every slice has spare capacity that
+// is filled with sentinel bytes.  It normalises cs.Scalar / cs.Point to the argument VALUES (copies) and
+// returns the slices to pass plus a function reporting any byte of the underlying buffers (arguments and
+// sentinels beyond len) that differs from its value before the call.
+func c14Materialize(cs *c14Case) (sc, pt []byte, changed func() string) {
+	var bufs, snaps [][]byte
+	mk := func(v []byte) []byte {
+		b := append(append(make([]byte, 0, len(v)+len(c14Sentinel)), v...), c14Sentinel...)
+		bufs = append(bufs, b)
+		return b
+	}
+	switch cs.Shape {
+	case "same":
+		b := mk(cs.Scalar)
+		sc = b[:len(cs.Scalar)]
+		pt = sc
+	case "overlap":
+		a := cs.Off
+		if a < 0 {
+			a = -a
+		}
+		n := len(cs.Buf) - a
+		if n < 0 {
+			n = 0
+		}
+		b := mk(cs.Buf)
+		if cs.Off >= 0 {
+			sc, pt = b[0:n], b[a:a+n]
+		} else {
+			pt, sc = b[0:n], b[a:a+n]
+		}
+	default:
+		bs, bp := mk(cs.Scalar), mk(cs.Point)
+		sc, pt = bs[:len(cs.Scalar)], bp[:len(cs.Point)]
+	}
+	cs.Scalar, cs.Point = append([]byte{}, sc...), append([]byte{}, pt...)
+	for _, b := range bufs {
+		snaps = append(snaps, append([]byte{}, b...))
+	}
+	changed = func() string {
+		for i, b := range bufs {
+			if !bytes.Equal(b, snaps[i]) {
+				for j := range b {
+					if b[j] != snaps[i][j] {
+						return fmt.Sprintf("buffer %d byte %d: %02x -> %02x (argument bytes end at %d, sentinels follow)", i, j, snaps[i][j], b[j], len(b)-len(c14Sentinel))
+					}
+				}
+			}
+		}
+		return ""
+	}
+	return
 }
 
 type c14Out struct {
@@ -147,8 +216,16 @@ func execC14(c *vf.Ctx, d *vf.Driver, cs c14Case) {
 	fail := func(kind, class, what, obs, req string) {
 		c.Fail(vf.Violation{Kind: kind, Class: class, What: what, Case: cs, Observed: obs, Required: req})
 	}
-	key := fmt.Sprintf("%s/%x/%x", cs.Kind, cs.Scalar, cs.Point)
+	var argSc, argPt []byte
+	argsChanged := func() string { return "" }
+	if cs.Kind == "x448" || cs.Kind == "x25519" {
+		argSc, argPt, argsChanged = c14Materialize(&cs)
+	}
+	key := fmt.Sprintf("%s/%s%d/%x/%x", cs.Kind, cs.Shape, cs.Off, cs.Scalar, cs.Point)
 	c.Count("kind:" + cs.Kind)
+	if cs.Shape != "" {
+		c.Count("shape:" + cs.Kind + "/" + cs.Shape)
+	}
 	if cs.Note != "" {
 		c.Count("class:" + cs.Note)
 	}
@@ -166,10 +243,9 @@ func execC14(c *vf.Ctx, d *vf.Driver, cs c14Case) {
 	}
 	switch cs.Kind {
 	case "x448":
-		sc, pt := append([]byte{}, cs.Scalar...), append([]byte{}, cs.Point...)
 		var g c14Out
 		panicked, what := vf.Recover(func() {
-			out, err := x448.X448(sc, pt)
+			out, err := x448.X448(argSc, argPt)
 			if err != nil {
 				g = c14Out{Tag: "err"}
 			} else {
@@ -180,8 +256,8 @@ func execC14(c *vf.Ctx, d *vf.Driver, cs c14Case) {
 			g = c14Out{Tag: "panic"}
 			fail("property", "c14-x448-panic", "X448 panicked: "+what, "panic", "value or error")
 		}
-		if !bytes.Equal(sc, cs.Scalar) || !bytes.Equal(pt, cs.Point) {
-			fail("property", "c14-x448-modifies-input", "X448 modified its arguments", "", "")
+		if ch := argsChanged(); ch != "" {
+			fail("property", "c14-x448-modifies-input", "X448 modified its arguments (or bytes beyond their length)", ch, "arguments unchanged")
 		}
 		if len(cs.Scalar) != 56 || len(cs.Point) != 56 {
 			c.Case(key, false)
@@ -251,9 +327,13 @@ func execC14(c *vf.Ctx, d *vf.Driver, cs c14Case) {
 	case "newkey":
 		c.Case(key, len(cs.Scalar) == 56)
 		var g c14Out
+		seedArg := append(append(make([]byte, 0, len(cs.Scalar)+16), cs.Scalar...), c14Sentinel...)
 		panicked, _ := vf.Recover(func() {
-			priv := x448.NewKeyFromSeed(cs.Scalar)
+			priv := x448.NewKeyFromSeed(seedArg[:len(cs.Scalar)])
 			g = c14Out{Tag: "ok", Val: priv}
+			if !bytes.Equal(seedArg[:len(cs.Scalar)], cs.Scalar) || !bytes.Equal(seedArg[len(cs.Scalar):], c14Sentinel) {
+				fail("property", "c14-x448-modifies-input", "NewKeyFromSeed modified the seed (or bytes beyond it)", hex.EncodeToString(seedArg), hex.EncodeToString(cs.Scalar))
+			}
 			pub, _ := priv.Public().(x448.PublicKey)
 			if len(priv) != 112 || !bytes.Equal(priv.Seed(), cs.Scalar) || !bytes.Equal(pub, priv[56:]) {
 				fail("property", "c14-key-layout", "private key is not seed || public", hex.EncodeToString(priv), "")
@@ -367,7 +447,7 @@ func execC14(c *vf.Ctx, d *vf.Driver, cs c14Case) {
 		c.Case(key, len(cs.Scalar) == 32 && len(cs.Point) == 32)
 		var g c14Out
 		panicked, what := vf.Recover(func() {
-			out, err := x25519.X25519(cs.Scalar, cs.Point)
+			out, err := x25519.X25519(argSc, argPt)
 			if err != nil {
 				g = c14Out{Tag: "err"}
 			} else {
@@ -377,6 +457,9 @@ func execC14(c *vf.Ctx, d *vf.Driver, cs c14Case) {
 		if panicked {
 			g = c14Out{Tag: "panic"}
 			fail("property", "c14-x25519-panic", "X25519 panicked: "+what, "panic", "")
+		}
+		if ch := argsChanged(); ch != "" {
+			fail("property", "c14-x25519-modifies-input", "X25519 modified its arguments (or bytes beyond their length)", ch, "arguments unchanged")
 		}
 		std, err := stdX25519(cs.Scalar, cs.Point)
 		r := c14Out{Tag: "ok", Val: std}
@@ -391,6 +474,113 @@ func execC14(c *vf.Ctx, d *vf.Driver, cs c14Case) {
 			if m := c14FromWire(res); !c14Same(m, g) {
 				fail("correspondence", "c14-model-x25519", "Lean model of x25519.X25519 (delegation to crypto/ecdh) and Go disagree", g.String(), m.String())
 			}
+		}
+	case "conc448", "conc25519":
+		// search support: N goroutines share ONE slice (the scalar, e.g. a static ECDH key, or the point) and
+		// use distinct other arguments; every result must equal the sequential reference computed from copies,
+		// and the shared slice must be unchanged both afterwards and whenever a watcher looks at it meanwhile
+		c.Case(key+fmt.Sprintf("/%s/%d", cs.Shared, cs.Seed), true)
+		n := 56
+		if cs.Kind == "conc25519" {
+			n = 32
+		}
+		if len(cs.Scalar) != n || cs.N <= 0 || cs.M <= 0 {
+			return
+		}
+		orig := append([]byte{}, cs.Scalar...)
+		shared := append(append(make([]byte, 0, n+16), orig...), c14Sentinel...)[:n]
+		rr := vf.NewRand(cs.Seed)
+		others := make([][]byte, cs.N)
+		want := make([]c14Out, cs.N)
+		for i := range others {
+			others[i] = rr.Bytes(n)
+			k, u := orig, others[i]
+			if cs.Shared == "point" {
+				k, u = others[i], orig
+			}
+			if n == 56 {
+				v, zero := refX448(k, u)
+				want[i] = c14Out{Tag: "ok", Val: v}
+				if zero {
+					want[i] = c14Out{Tag: "err"}
+				}
+			} else {
+				v, err := stdX25519(k, u)
+				want[i] = c14Out{Tag: "ok", Val: v}
+				if err != nil {
+					want[i] = c14Out{Tag: "err"}
+				}
+			}
+		}
+		var done atomic.Bool
+		var wg, wwg sync.WaitGroup
+		var mu sync.Mutex
+		bad, seenModified := "", ""
+		wwg.Add(1)
+		go func() { // watcher: a (deliberately unsynchronised) reader of the shared slice while the calls run
+			defer wwg.Done()
+			for !done.Load() {
+				if !bytes.Equal(shared, orig) {
+					mu.Lock()
+					if seenModified == "" {
+						seenModified = hex.EncodeToString(shared)
+					}
+					mu.Unlock()
+					return
+				}
+				runtime.Gosched()
+			}
+		}()
+		for i := 0; i < cs.N; i++ {
+			wg.Add(1)
+			go func(i int) {
+				defer wg.Done()
+				mine := append([]byte{}, others[i]...)
+				for j := 0; j < cs.M; j++ {
+					k, u := shared, mine
+					if cs.Shared == "point" {
+						k, u = mine, shared
+					}
+					var out []byte
+					var err error
+					var g c14Out
+					panicked, _ := vf.Recover(func() {
+						if n == 56 {
+							out, err = x448.X448(k, u)
+						} else {
+							out, err = x25519.X25519(k, u)
+						}
+					})
+					switch {
+					case panicked:
+						g = c14Out{Tag: "panic"}
+					case err != nil:
+						g = c14Out{Tag: "err"}
+					default:
+						g = c14Out{Tag: "ok", Val: out}
+					}
+					if !c14Same(g, want[i]) || !bytes.Equal(mine, others[i]) {
+						mu.Lock()
+						if bad == "" {
+							bad = fmt.Sprintf("goroutine %d call %d: %s, required %s", i, j, g.String(), want[i].String())
+						}
+						mu.Unlock()
+						return
+					}
+				}
+			}(i)
+		}
+		wg.Wait()
+		done.Store(true)
+		wwg.Wait()
+		if bad != "" {
+			fail("property", "c14-concurrent-result", "concurrent calls sharing one "+cs.Shared+" slice: a result differs from the sequential reference (or a private argument was modified)", bad, "RFC 7748 value of the argument values")
+		}
+		if seenModified != "" {
+			fail("property", "c14-concurrent-modifies-input", "the shared "+cs.Shared+" slice was observed modified while calls were running", seenModified, hex.EncodeToString(orig))
+		}
+		if full := shared[:n+16]; !bytes.Equal(full[:n], orig) || !bytes.Equal(full[n:], c14Sentinel) {
+			fail("property", "c14-concurrent-modifies-input", "the shared "+cs.Shared+" slice is modified after concurrent calls", hex.EncodeToString(full), hex.EncodeToString(orig))
 		}
 	case "x25519key":
 		c.Case(key, len(cs.Scalar) == 32)
@@ -510,6 +700,59 @@ func c14GenPoint(r *vf.Rand, sp map[string][]byte, names []string) ([]byte, stri
 	}
 }
 
+// c14Shaped builds a case whose two arguments share memory: shape "same" (one slice passed twice) or
+// "overlap" (point window starts off bytes after the scalar window inside one buffer).
+func c14Shaped(r *vf.Rand, kind string, n int, shape string, off int) c14Case {
+	cs := c14Case{Kind: kind, Shape: shape, Off: off, Spec: kind == "x448"}
+	switch shape {
+	case "same":
+		cs.Scalar = r.Bytes(n)
+		switch r.Intn(3) {
+		case 0: // clamped bits set the "wrong" way round
+			cs.Scalar[0] |= 7
+			cs.Scalar[n-1] &= 0x3f
+		case 1:
+			for i := range cs.Scalar {
+				cs.Scalar[i] = 0xff
+			}
+		}
+		cs.Note = "shape-same"
+	default:
+		a := off
+		if a < 0 {
+			a = -a
+		}
+		cs.Buf = r.Bytes(n + a)
+		if r.Bool() { // the bytes the clamp touches hold values the clamp would change
+			for _, i := range []int{0, a, n - 1, n - 1 + a} {
+				cs.Buf[i] = []byte{0xff, 0x03, 0x7f, 0x07}[r.Intn(4)]
+			}
+		}
+		switch {
+		case a == n-1:
+			cs.Note = "shape-overlap-boundary"
+		case a == 0:
+			cs.Note = "shape-overlap-full"
+		case a == 1:
+			cs.Note = "shape-overlap-off-by-one"
+		default:
+			cs.Note = "shape-overlap"
+		}
+	}
+	return cs
+}
+
+func c14RandOff(r *vf.Rand, n int) int {
+	switch r.Intn(5) {
+	case 0:
+		return []int{n - 1, -(n - 1)}[r.Intn(2)]
+	case 1:
+		return []int{0, 1, -1}[r.Intn(3)]
+	default:
+		return r.Intn(2*n-1) - (n - 1)
+	}
+}
+
 func c14Hex(s string) []byte {
 	b, err := hex.DecodeString(s)
 	if err != nil {
@@ -613,6 +856,48 @@ func runC14(c *vf.Ctx) {
 		k = append([]byte{}, baseK...)
 		k[55] = byte(v)
 		fixed = append(fixed, c14Case{Kind: "x448", Scalar: k, Point: baseU, Spec: true, Note: "k55-all-values"})
+	}
+	// argument shapes: one slice for both arguments, two windows of one buffer at EVERY offset, for both functions
+	for _, fn := range []struct {
+		kind string
+		n    int
+	}{{"x448", 56}, {"x25519", 32}} {
+		for j := 0; j < 3; j++ {
+			cs := c14Shaped(seedR, fn.kind, fn.n, "same", 0)
+			cs.Model = fn.kind == "x448" && j == 0
+			fixed = append(fixed, cs)
+		}
+		for off := -(fn.n - 1); off <= fn.n-1; off++ {
+			cs := c14Shaped(seedR, fn.kind, fn.n, "overlap", off)
+			cs.Model = fn.kind == "x448" && (off == fn.n-1 || off == -(fn.n-1) || off == 0 || off == 1 || off == -1)
+			fixed = append(fixed, cs)
+		}
+	}
+	// concurrent callers sharing one slice (search support; short in quick)
+	{
+		rounds, m := c.Budget(1, 6), c.Budget(200, 1000)
+		if SearchMode() {
+			rounds *= 4
+		}
+		for j := 0; j < rounds; j++ {
+			for _, kind := range []string{"conc448", "conc25519"} {
+				n := 56
+				if kind == "conc25519" {
+					n = 32
+				}
+				for _, sh := range []string{"scalar", "point"} {
+					v := seedR.Bytes(n)
+					if j%2 == 0 { // every bit the clamp would change is set the "wrong" way
+						v[0] |= 7
+						v[n-1] = v[n-1]&0x3f | 0x40
+						if n == 56 {
+							v[n-1] &= 0x7f
+						}
+					}
+					fixed = append(fixed, c14Case{Kind: kind, Scalar: v, Shared: sh, Seed: seedR.U64(), N: 8, M: m, Note: "concurrent-shared-" + sh})
+				}
+			}
+		}
 	}
 	// wrong lengths
 	for _, l := range [][2]int{{0, 56}, {55, 56}, {57, 56}, {56, 0}, {56, 55}, {56, 57}, {32, 32}, {112, 56}} {
@@ -726,6 +1011,17 @@ func runC14(c *vf.Ctx) {
 				cs = c14Case{Kind: "x25519", Scalar: sc, Point: pt, Note: "x25519"}
 			default:
 				cs = c14Case{Kind: "x25519key", Scalar: r.Bytes(32), Note: "x25519key"}
+			}
+			if (cs.Kind == "x448" || cs.Kind == "x25519") && r.Intn(6) == 0 {
+				n := 56
+				if cs.Kind == "x25519" {
+					n = 32
+				}
+				if r.Intn(3) == 0 {
+					cs = c14Shaped(r, cs.Kind, n, "same", 0)
+				} else {
+					cs = c14Shaped(r, cs.Kind, n, "overlap", c14RandOff(r, n))
+				}
 			}
 			// spread the slow model calls evenly over the run
 			if modelLeft > 0 && (cs.Kind == "x448" || cs.Kind == "dh" || cs.Kind == "newkey" || cs.Kind == "genkey") &&
